@@ -478,6 +478,24 @@ def check(chk):
     _opp_poll(chk, repo)
     _snapshot_applied(chk, repo)
 
+    # start-up collection of the initial input reports: the loop ends exactly when every card has answered.  Chunk contents decide nothing:
+    # data bytes may equal the delimiter (0xff = eight open inputs), a chunk of one 0xff is not the end of the answer.
+    ic = repo.func(OS_, "OPPSerialCommunicator._identify_connection")
+    chk.analysed(ic)
+    from sa.cfg import canon_fact
+    lps = [x for x in ast.walk(ic.node) if isinstance(x, ast.While) and any(isinstance(c_, ast.Call) and call_attr(c_) == "_parse_msg" for c_ in ast.walk(x))]
+    chk.need(lps, "DOM-29", "_identify_connection collects the initial input reports in a loop", ic)
+    lp = lps[0]
+    outs = [x for b in lp.body for x in ast.walk(b) if isinstance(x, (ast.Break, ast.Return))]
+    gates = [x for b in lp.body for x in ast.walk(b) if isinstance(x, ast.If) and any(isinstance(y, (ast.Break, ast.Return)) for z in x.body + x.orelse for y in ast.walk(z))]
+    ok = len(outs) == 1 and len(gates) == 1 and src(lp.test) == "True" and canon_fact(src(gates[0].test), True) == canon_fact("cards <= 0", True)
+    chk.ob("DOM-29", "the start-up collection of input reports ends exactly when every card has answered (cards <= 0), whatever the chunks contain", ok,
+           ic.where(gates[0] if gates else lp), detail="left when %s" % [src(g_.test) for g_ in gates], construct=ic.ident, text="initial report loop exit")
+    dec = [x for b in lp.body for x in ast.walk(b) if isinstance(x, ast.AugAssign) and src(x.target) == "cards"]
+    ok = len(dec) == 1 and isinstance(dec[0].op, ast.Sub) and src(dec[0].value) == "self._parse_msg(resp)"
+    chk.ob("DOM-29", "each chunk lowers the outstanding-card count by the number of reports parsed from it", ok, ic.where(lp), construct=ic.ident,
+           text="outstanding cards bookkeeping")
+
     # ------------------------------------------------------------ SYNC-1
     DEFER = {"call_soon", "call_later", "call_at", "create_task", "ensure_future", "schedule_once", "run_in_executor"}
     n_proc = 0
@@ -763,6 +781,7 @@ def _reaches_switch_update(repo, cls, m):
 def battery():
     from sa.battery import M
     return [
+        M("a lone delimiter byte ends the start-up collection", OS_, "            if cards <= 0:\n                break", "            if cards <= 0 or resp == OppRs232Intf.EOM_CMD:\n                break", "DOM-29"),
         M("PKONE dispatches the raw chunk instead of the frame", "mpf/platforms/pkone/pkone_serial_communicator.py", "            msg = self.received_msg[:pos]\n", "            frame = self.received_msg[:pos]\n", "PAIR-15",
           also=[("mpf/platforms/pkone/pkone_serial_communicator.py", "            if not msg:\n                continue\n\n            if msg.decode() not in self.ignored_messages:", "            if not frame:\n                continue\n\n            if frame.decode() not in self.ignored_messages:")]),
         M("SA report applied only when it differs from the last report", "mpf/platforms/fast/communicators/net_neuron.py", "        self.platform.hw_switch_data = hw_states\n        self.update_switches_from_hw_data()", "        if hw_states != self.platform.hw_switch_data:\n            self.platform.hw_switch_data = hw_states\n            self.update_switches_from_hw_data()", "SYNC-1"),
